@@ -80,7 +80,13 @@ class C08(Oracle):
         if u is c:
             raise Violation("C08", "new-object", "same-object", {"operation": op})
         got = observe.doc_obs(u)
-        if got != exp:
+
+        def unordered_bundles(snap):
+            return (snap[0], tuple(sorted(snap[1], key=repr)))
+
+        if unordered_bundles(got) != unordered_bundles(exp):
+            exp = unordered_bundles(exp)
+            got = unordered_bundles(got)
             detail = {"operation": op, "records": observe.diff_multisets(exp[0], got[0])}
             if observe.multiset(exp[0]) == observe.multiset(got[0]) and exp[0] != got[0]:
                 detail["records"] = "order differs"
@@ -115,7 +121,7 @@ class C08(Oracle):
             uu = u.unified()
         except Exception as e:
             raise Violation("C08", "idempotent", "second-unified-raised", {"operation": op, "error": repr(e)})
-        if observe.doc_obs(uu) != got:
+        if unordered_bundles(observe.doc_obs(uu)) != unordered_bundles(got):
             raise Violation("C08", "idempotent", "differs", {
                 "operation": op, "records": observe.diff_multisets(got[0], observe.doc_obs(uu)[0])})
         self.count("idempotence_checks")
